@@ -4,3 +4,5 @@ import Bmc.Proofs.C02
 #print axioms Bmc.Proofs.C02.wrong_code_is_password_error
 #print axioms Bmc.Proofs.C02.password_error_only_from_wrong_code
 #print axioms Bmc.Proofs.C02.bad_status_or_tag
+#print axioms Bmc.Proofs.C02.truncated_reply_is_not_a_reply
+#print axioms Bmc.Proofs.C02.only_truncated_replies_no_session
